@@ -215,6 +215,14 @@ theorem core_step (fx : Fix) (hfx : fx.d5 = true) (s : St) (a : Action) (s' : St
         exact ⟨a1, a2, b, c, d, by intro v i st hh; simp at hh, f⟩
       · simp at ha
     · simp at ha
+  case rhSubFail i =>
+    split at ha
+    · split at ha
+      · simp at ha; subst ha
+        obtain ⟨a1, a2, b, c, d, e, f⟩ := h
+        exact ⟨a1, a2, b, c, d, by intro v i st hh; simp at hh, f⟩
+      · simp at ha
+    · simp at ha
   case closeTimeout k =>
     split at ha
     · split at ha
